@@ -13,6 +13,8 @@ var smallLimits = []int64{300, 2000, 40000, 200000, 1 << 20}
 type genOpts struct {
 	batches, merges, restarts, emptyKey bool
 	ops                                 int
+	prof                                string
+	limits                              []int64
 }
 
 // randomWorkload drives one trace on a fresh directory.
@@ -22,7 +24,7 @@ func randomWorkload(en *Env, cfg h.Cfg, nkeys int, o genOpts, reopenCfg func() h
 	u := h.SimpleKeys(nkeys, 5+en.R.Intn(12))
 	vs := h.NewValues()
 	e := h.NewEng(dir, en.Work+"/scratch", cfg, u, vs, en.T)
-	en.T.Emit(h.Ev{"ev": "reset", "n": nkeys, "seed": en.Seed, "prof": "map"})
+	en.T.Emit(h.Ev{"ev": "reset", "n": nkeys, "seed": en.Seed, "prof": o.prof})
 	if e.Open(cfg) != "ok" {
 		return
 	}
@@ -109,7 +111,7 @@ func profMap(en *Env) {
 		cfg := h.CoverCfg(en.R, t, smallLimits)
 		cfgs[cfg.String()]++
 		same := cfg
-		randomWorkload(en, cfg, 3+en.R.Intn(6), genOpts{batches: true, merges: true, restarts: true, emptyKey: true, ops: ops},
+		randomWorkload(en, cfg, 3+en.R.Intn(6), genOpts{batches: true, merges: true, restarts: true, emptyKey: true, ops: ops, prof: "map"},
 			func() h.Cfg { return same })
 	}
 	en.Summary["traces"] = traces
